@@ -482,42 +482,42 @@ def ad_plans(prop, quick):
     sim_n = lambda q, t: max(q // 3, 50) if quick else t
     dyn2 = dict(Modes={"dyninit"}, Params={1, 2}, InitLens={3}, MaxLen=5)
     if prop == "C09":
-        return [("GSpec", "edge", ad_base(StageKinds={k}, Depth=D, PipeFlavs={"plain"}, InitLens={2} if quick else {0, 2, 3},
-                                          Modes={"dyn", "dyninit"} if quick else {"static", "dyn", "dyninit"},
-                                          Params={0, 1, 3} if quick else {0, 1, 2, 3, 4}), 0) for k in sorted(LIMIT_KINDS)] + [
+        return [("GSpec", "edge", ad_base(StageKinds={k}, Depth=D, PipeFlavs={"plain"}, InitLens={2},
+                                          Modes={"dyn", "dyninit"},
+                                          Params={0, 1, 3}), 0) for k in sorted(LIMIT_KINDS)] + [
             ("GSpecCore", "tree", ad_base(StageKinds={k}, Depth=D, CoreSet="lean", **dyn2), 0) for k in sorted(LIMIT_KINDS)] + [
             ("GSpecLimits", "tree", ad_base(Depth=D if quick else D + 1, Modes={"dyninit", "dyn"}, Params={1, 3, 4}, InitLens={2}), 0),
-            ("GSpec", "edge", ad_base(Depth=D, Caps={1}, InitLens={2}, Modes={"dyninit"}, Params={1, 2}, PipeFlavs={"plain"} if quick else both), 0),
-            ("GSpecTxnSmall", "edge", ad_base(Depth=D + 2, InitLens={2}, Modes={"static"}, Params={2} if quick else {1, 2}, MaxLen=4), 0),
+            ("GSpec", "edge", ad_base(Depth=D, Caps={1}, InitLens={2}, Modes={"dyninit"}, Params={1, 2}, PipeFlavs={"plain"}), 0),
+            ("GSpecTxnSmall", "edge", ad_base(Depth=D + 2, InitLens={2}, Modes={"static"}, Params={2}, MaxLen=4), 0),
             ("GSpecTxn", "sim", ad_base(Depth=40, Caps={1, 2, 16}, InitLens={0, 1, 3, 5}, Params={0, 1, 2, 3, 5, 8}, MaxLen=8,
                                         PipeFlavs=both), sim_n(500, 20000))]
     if prop == "C10":
         K = {"filter", "filter_map"}
-        return [("GSpec", "edge", ad_base(StageKinds=K, Depth=D, InitLens={3} if quick else {0, 3}, PipeFlavs=both), 0),
-                ("GSpecCore", "tree", ad_base(StageKinds=K, Depth=D, CoreSet="full", InitLens={3}, MaxLen=5, PipeFlavs={"plain"} if quick else both), 0),
+        return [("GSpec", "edge", ad_base(StageKinds=K, Depth=D, InitLens={3}, PipeFlavs=both), 0),
+                ("GSpecCore", "tree", ad_base(StageKinds=K, Depth=D, CoreSet="full", InitLens={3}, MaxLen=5, PipeFlavs={"plain"}), 0),
                 ("GSpec", "edge", ad_base(StageKinds=K, Depth=D if quick else D + 1, Caps={1}, InitLens={2}, MaxLen=3, PipeFlavs=both), 0),
-                ("GSpecTxnSmall", "edge", ad_base(StageKinds=K, Depth=D + 2, InitLens={2}, MaxLen=4, PipeFlavs={"batched"} if quick else both), 0),
+                ("GSpecTxnSmall", "edge", ad_base(StageKinds=K, Depth=D + 2, InitLens={2}, MaxLen=4, PipeFlavs={"batched"}), 0),
                 ("GSpecTxn", "sim", ad_base(StageKinds=K, Depth=40, Caps={1, 2, 16}, InitLens={0, 1, 3, 5}, MaxLen=8,
                                             PipeFlavs=both), sim_n(500, 20000))]
     if prop == "C11":
         K = {"sort", "sort_by", "sort_by_key"}
-        return [("GSpec", "edge", ad_base(StageKinds=K, Depth=D, InitLens={3} if quick else {0, 3}, MaxLen=4, PipeFlavs={"batched"} if quick else both), 0),
-                ("GSpecCore", "tree", ad_base(StageKinds=K, Depth=D, CoreSet="full", InitLens={3}, MaxLen=5, PipeFlavs={"plain"} if quick else both), 0),
+        return [("GSpec", "edge", ad_base(StageKinds=K, Depth=D, InitLens={3}, MaxLen=4, PipeFlavs={"batched"}), 0),
+                ("GSpecCore", "tree", ad_base(StageKinds=K, Depth=D, CoreSet="full", InitLens={3}, MaxLen=5, PipeFlavs={"plain"}), 0),
                 ("GSpec", "edge", ad_base(StageKinds=K, Depth=D if quick else D + 1, Caps={1}, InitLens={2}, MaxLen=3), 0),
                 ("GSpecTxnSmall", "edge", ad_base(StageKinds=K, Depth=D + 2, InitLens={3}, MaxLen=5), 0),
                 ("GSpecTxn", "sim", ad_base(StageKinds=K, Depth=40, Caps={1, 2, 16}, InitLens={0, 1, 3, 5, 7}, MaxLen=9,
                                             PipeFlavs=both), sim_n(500, 20000))]
     if prop == "C12":
         return [("GSpecCore", "tree", ad_base(StageKinds=ALL_KINDS, NStages={2}, Depth=3 if quick else 4, InitLens={3}, Modes={"dyn", "static"},
-                                              Params={2} if quick else {1, 2}, SelfObs={0, 1}, MaxLen=5, CoreSet="lean"), 0),
+                                              Params={2}, SelfObs={0, 1}, MaxLen=5, CoreSet="lean"), 0),
                 ("GSpecTxn", "sim", ad_base(StageKinds=ALL_KINDS, NStages={2, 3}, Depth=30, Caps={2, 16}, InitLens={0, 2, 4, 6},
                                             Params={0, 1, 2, 4}, MaxLen=8, SelfObs={0, 1}, PipeFlavs=both),
                  sim_n(1500, 40000))]
     if prop == "C13":
         fixed = dict(Modes={"static"}, PipeFlavs={"twin", "batched"})
-        return [("GSpecTxnSmall", "edge", ad_base(StageKinds={"head", "tail", "skip", "filter", "sort"} if quick else ALL_KINDS, Depth=D + 2,
+        return [("GSpecTxnSmall", "edge", ad_base(StageKinds={"head", "tail", "skip", "filter", "sort"}, Depth=D + 2,
                                                   InitLens={0, 2}, Params={1}, MaxLen=4, Modes={"static"},
-                                                  PipeFlavs={"twin"} if quick else {"twin", "batched"}), 0),
+                                                  PipeFlavs={"twin"}), 0),
                 ("GSpecTxn", "sim", ad_base(StageKinds=ALL_KINDS, NStages={1, 2}, Depth=40, Caps={16, 64}, InitLens={0, 2, 5}, Params={0, 1, 3},
                                             MaxLen=8, **fixed), sim_n(800, 30000)),
                 ("GSpecTxn", "sim", ad_base(StageKinds=ALL_KINDS, NStages={1, 2}, Depth=40, Caps={1, 16}, InitLens={0, 2, 5}, Params={0, 1, 3},
@@ -530,11 +530,11 @@ def ad_plans(prop, quick):
                                             MaxLen=8, SelfObs={0, 1}, PipeFlavs=both), sim_n(1000, 30000))]
     if prop == "C15":
         K = {"head", "tail"}
-        return [("GSpec", "edge", ad_base(StageKinds=K, Depth=D, Modes={"static"}, InitLens={3} if quick else {0, 2, 3},
-                                          Params={1, 2} if quick else {1, 2, 3}, MaxLen=4, PipeFlavs=both), 0),
+        return [("GSpec", "edge", ad_base(StageKinds=K, Depth=D, Modes={"static"}, InitLens={3},
+                                          Params={1, 2}, MaxLen=4, PipeFlavs=both), 0),
                 ("GSpecCore", "tree", ad_base(StageKinds=K, Depth=D - 1 if quick else D, CoreSet="full", Modes={"static"}, Params={1, 2, 3},
                                               InitLens={2, 3}, MaxLen=5, PipeFlavs=both), 0),
-                ("GSpecTxnSmall", "edge", ad_base(StageKinds=K, Depth=D + 2, Modes={"static"}, InitLens={3}, Params={2} if quick else {1, 2}, MaxLen=5,
+                ("GSpecTxnSmall", "edge", ad_base(StageKinds=K, Depth=D + 2, Modes={"static"}, InitLens={3}, Params={2}, MaxLen=5,
                                                   PipeFlavs={"batched"}), 0),
                 ("GSpecTxn", "sim", ad_base(StageKinds=K, Depth=40, Caps={1, 16}, Modes={"static"}, InitLens={0, 2, 5, 8}, Params={0, 1, 2, 3, 5},
                                             MaxLen=10, PipeFlavs=both), sim_n(500, 20000))]
